@@ -45,8 +45,13 @@ WResetRaw(m, w) == LET d == m.s.wp[w] IN
                    IF d = 0 THEN m ELSE DropSoft([m EXCEPT !.s.wp[w] = 0], d)
 (* the hard-count half of cstl_shared_ptr_reset; the clear callback runs inside cstl_unique_ptr_reset, before
    the memory is freed, and may call back into the library (clr = 2: it resets weak pointer W1; clr = 3: it
-   locks W1) *)
-DropHard(m, d) ==
+   locks W1;
+   clr = 4: it resets another shared pointer) *)
+\* self: the shared pointer object this operation is re-targeting.  clr = 4: the callback resets shared pointer S[NS]
+\* (unless that is the very object being re-targeted), which may take a second allocation down inside the first
+\* one's callback.
+RECURSIVE DropHard(_, _, _), SResetM(_, _)
+DropHard(m, d, self) ==
     LET old == m.s.al[d].hard
         m1 == [m EXCEPT !.s.al[d].hard = old - 1]
     IN IF old = 1
@@ -57,11 +62,12 @@ DropHard(m, d) ==
                            \* clr = 3: the callback locks weak pointer W1 into a temporary and drops it again; the
                            \* lock finds an owner iff W1's block has one left (never the block being torn down)
                            THEN Ev(m2, <<"cblock", IF w1 # 0 /\ m1.s.al[w1].hard > 0 THEN 1 ELSE 0>>)
+                      ELSE IF m1.s.al[d].clr = 4 /\ self # NS THEN SResetM(m2, NS)
                            ELSE m2
             IN [Ev(m3, <<"freem", d>>) EXCEPT !.s.al[d].mem = FALSE, !.s.al[d].clr = 0]
        ELSE m1
 SResetM(m, s) == LET d == m.s.sp[s] IN
-                 IF d = 0 THEN m ELSE DropSoft([DropHard(m, d) EXCEPT !.s.sp[s] = 0], d)
+                 IF d = 0 THEN m ELSE DropSoft([DropHard(m, d, s) EXCEPT !.s.sp[s] = 0], d)
 WResetM(m, w) == WResetRaw(m, w)
 
 (* cstl_shared_ptr_alloc(sp, sz, clr): sz = 0 only resets *)
@@ -178,7 +184,7 @@ LifeOK(pre, tsp, twp, ev) ==
 OKs2(wf) == IF wf THEN {<<TRUE, TRUE>>, <<FALSE, TRUE>>, <<TRUE, FALSE>>} ELSE {<<TRUE, TRUE>>}
 OKs1(wf) == IF wf THEN {<<TRUE>>, <<FALSE>>} ELSE {<<TRUE>>}
 OpSetF(wf) ==
-    {[op |-> "salloc", s |-> s, clr |-> c, ok |-> k, zero |-> FALSE] : s \in SP, c \in (IF NW >= 1 THEN 0..3 ELSE 0..1), k \in OKs2(wf)}
+    {[op |-> "salloc", s |-> s, clr |-> c, ok |-> k, zero |-> FALSE] : s \in SP, c \in (IF NW >= 1 THEN 0..3 ELSE 0..1) \cup (IF NS >= 2 THEN {4} ELSE {}), k \in OKs2(wf)}
     \cup {[op |-> "salloc", s |-> s, clr |-> 0, ok |-> <<TRUE, TRUE>>, zero |-> TRUE] : s \in SP}
     \cup {[op |-> "share", e |-> e, n |-> n] : e \in SP, n \in SP}
     \cup {[op |-> "sswap", a |-> p[1], b |-> p[2]] : p \in {x \in SP \X SP : x[1] <= x[2]}}
@@ -210,13 +216,18 @@ StrayAborts(f, pos) == IF pos = 3 THEN <<f, 1>> \notin NoRead \/ <<f, 2>> \notin
 UEv(ev) == SelectSeq(ev, LAMBDA e : e[1] \in {"uclr", "ufree"})
 Allocs(ev) == SelectSeq(ev, LAMBDA e : e[1] \in {"allocd", "allocm", "allocu", "allocfail"})
 Contract(o, pre, post, nlive, tsp, twp, ev, ret) ==
-    LET sameS(X) == \A x \in SP \ X : tsp[x] = pre.sp[x]
+    LET self == CASE o.op \in {"salloc", "sreset", "wlock"} -> o.s [] o.op = "share" -> o.n [] OTHER -> 0
+        \* a clear callback of kind 4 ran for the allocation this operation took its last owner from: it reset S[NS]
+        cb4 == self # 0 /\ self # NS /\ pre.sp[self] # 0 /\ pre.al[pre.sp[self]].clr = 4
+               /\ \E i \in 1..Len(ev) : ev[i] = <<"clr", pre.sp[self]>>
+        psp == IF cb4 THEN [pre.sp EXCEPT ![NS] = 0] ELSE pre.sp
+        sameS(X) == \A x \in SP \ X : tsp[x] = psp[x]
         \* a clear callback of kind 2 ran: it reset weak pointer W1 before the memory was freed
         cbReset == \E i \in 1..Len(ev) : ev[i][1] = "clr" /\ ev[i][2] # NEWB /\ pre.al[ev[i][2]].clr = 2
         wBefore(x) == IF cbReset /\ x = 1 THEN 0 ELSE pre.wp[x]
         sameW(X) == \A x \in WP \ X : twp[x] = wBefore(x)
         sameU(X) == \A x \in UP \ X : post.up[x] = pre.up[x]
-        ownersLeft(d, s) == Owners(pre, d) \ {s} # {}
+        ownersLeft(d, s) == {x \in SP : psp[x] = d} \ {s} # {}
         uDrop(u) == (IF pre.up[u].clr THEN << <<"uclr", u>> >> ELSE <<>>)
                     \o (IF pre.up[u].has THEN << <<"ufree", u>> >> ELSE <<>>)
     IN
@@ -238,7 +249,7 @@ Contract(o, pre, post, nlive, tsp, twp, ev, ret) ==
               /\ (tsp[o.s] = NEWB) => LET d == post.sp[o.s] IN post.al[d].mem /\ post.al[d].clr = o.clr
          [] o.op = "share" ->
               /\ sameS({o.n}) /\ sameW({}) /\ sameU({})
-              /\ IF o.e = o.n THEN tsp[o.n] \in {0, pre.sp[o.e]} ELSE tsp[o.n] = pre.sp[o.e]
+              /\ IF o.e = o.n THEN tsp[o.n] \in {0, pre.sp[o.e]} ELSE tsp[o.n] = psp[o.e]      \* (the source may just have been reset by a callback)
          [] o.op = "sswap" -> tsp[o.a] = pre.sp[o.b] /\ tsp[o.b] = pre.sp[o.a] /\ sameS({o.a, o.b}) /\ sameW({}) /\ sameU({}) /\ ev = <<>>
          [] o.op = "sreset" -> tsp[o.s] = 0 /\ sameS({o.s}) /\ sameW({}) /\ sameU({})
          [] o.op = "sget" -> tsp = pre.sp /\ sameW({}) /\ sameU({}) /\ ev = <<>> /\ ret = pre.sp[o.s]
